@@ -42,5 +42,5 @@ fn run_shard(ctx: &ShardCtx) {
         max_ops: ctx.tier.pick(40, 120),
         quotes: true,
     };
-    run_lockstep_shard(ctx, "screen", "C06", ctx.tier.pick(150_000, 2_000_000), opts, &["raw", "raw", "enum", "group"], FLAGS);
+    run_lockstep_shard(ctx, "screen", "C06", ctx.tier.pick(1_500_000, 15_000_000), opts, &["raw", "raw", "enum", "group"], FLAGS);
 }
